@@ -1,4 +1,5 @@
 import PEval.Lemmas.ManagerTrackingArith
+import PEval.Lemmas.ManagerHeapTracking
 /-!
 # C13 (tracking part) — the manager's per-frame and scene CLEAR scores
 
@@ -319,5 +320,69 @@ example : (tsemEx.rename (swapId 1 2) (swapId 1 2)).evalTB tf0 0 () ≠ tsemEx.e
   exact ⟨by decide +kernel, scene_tracking_rename_invariant _ _ (swapId_injective 1 2) (swapId_injective 1 2) _ _ _⟩
 
 end TrackingExamples
+
+/-! ## the heap machine refines the tracking machine
+
+`Model/ManagerHeap.lean` passes ground-truth frames and estimate lists BY REFERENCE and performs the
+assignments of `_filter_objects` / `evaluate_frame` as writes.  When its pure tracking part is
+`frameTrack` on the tracking views of `frame_results[-1].object_results` and of the current object results
+(`TracksBy`), the repaired code (`hrun`) run on a store `h` is the machine `trun` above run on the
+dereferenced values — so every theorem of this file is a theorem about the heap machine. -/
+
+section HeapTracking
+open PEval.ManagerHeap
+
+theorem heap_refines_tracking_machine {Est OR C' : Type} (sem : HSem Est OR C' (List TScore)) (p : TrackParams OR)
+    (ht : TracksBy sem p) (s : HState Est OR (List TScore)) (ops : List (HOp C'))
+    (hv : DatasetValid s.heap s.dataset) (hops : ∀ op ∈ ops, op.validIn s.heap) :
+    absTState p (hrun sem s ops).1 = (trun (toTSem sem p) (absTState p s) (ops.map (absOp s.heap))).1 ∧
+    (hrun sem s ops).2.map (absTOutAdded p)
+      = (trun (toTSem sem p) (absTState p s) (ops.map (absOp s.heap))).2.map TOut.added? :=
+  hrun_tsim sem p ht s.heap s ops (Ext.refl _) hv hops
+
+/-- transferred: on the heap machine the tracking scores stored by the last `add` of any valid run are
+`evaluate_tracking` of `[tracking view of the previously stored result, current view]` -/
+theorem heap_frame_tracking_depends_on_last_only {Est OR C' : Type} (sem : HSem Est OR C' (List TScore))
+    (p : TrackParams OR) (ht : TracksBy sem p) (s : HState Est OR (List TScore)) (pre : List (HOp C'))
+    (fr er : Ref) (c : C') (h1 : fr < s.heap.frames.length) (h2 : er < s.heap.ests.length) :
+    (hlastOut sem s (pre ++ [.add fr er c])).bind HOut.track?
+      = some (frameTrack p.labels p.cfgs
+          ((hrun sem s pre).1.frameResults.getLast?.map (fun r => p.tbOf r.objectResults))
+          (p.tbOf (pureORs sem c (s.heap.frame fr) (s.heap.est er)))
+          (pureDet sem c (s.heap.frame fr) (s.heap.est er))) := by
+  obtain ⟨e1, e2, e3⟩ := hstep_add_after_run sem s pre fr er c h1 h2
+  rw [hlastOut, hlastOutV_append_one]
+  simp only [hrun, hstep] at e1 e2 e3 ⊢
+  rw [e1]
+  have ht' := ht
+  unfold TracksBy at ht'
+  simp only [Option.bind_some, HOut.track?, HOut.added?, Option.map_some, addResult, e2, e3, ht', pureDet,
+    Option.map_map]
+  rfl
+
+-- non-vacuity: a concrete heap semantics whose tracking part is `frameTrack` (one label, one centre-distance
+-- configuration with threshold 1; every estimate is an unmatched result), and a valid two-add run on it
+def exTP : TrackParams Nat :=
+  { labels := [0], cfgs := [⟨0, false, [1]⟩], tbOf := fun ors => [ors.map (fun e => ⟨e, 0, none, [0], false, 1⟩)] }
+
+def exTSem : HSem Nat Nat Unit (List TScore) where
+  nLabels := 1
+  filterEst := fun _ es => es
+  filterGt := fun _ gs => gs
+  matchObjs := fun _ es _ => es
+  critRes := fun _ _ ors => ors
+  critGt := fun _ _ gs => gs
+  detOf := fun _ ors gs => ⟨[ors.map (fun e => ⟨e, none, 0, [0]⟩)], [gs.length]⟩
+  bucketsOf := fun ors => [ors.map (fun e => ⟨e, none, 0, [0]⟩)]
+  numGtOf := fun gs => [gs.length]
+  trackOf := fun _ ors gs prev =>
+    frameTrack exTP.labels exTP.cfgs (prev.map exTP.tbOf) (exTP.tbOf ors)
+      ⟨[ors.map (fun e => ⟨e, none, 0, [0]⟩)], [gs.length]⟩
+
+example : TracksBy exTSem exTP := fun _ _ _ _ => rfl
+example : (hrun exTSem (hfresh ⟨[⟨100, 0, [11]⟩], [[1, 2]]⟩ [0]) [.add 0 0 (), .add 0 0 ()]).1.frameResults.length = 2 := by
+  decide +kernel
+
+end HeapTracking
 
 end PEval.C13
